@@ -114,9 +114,11 @@ def main(tier):
                 a.append(os.path.join(emitdir, "e%d_%d.bin" % (L, idx)))
             jobs.append(a)
     for j in range(16):
-        jobs.append(["rand", nrand // 16, core.seed() * 1000 + j, 65536,
-                     os.path.join(emitdir, "r%d.bin" % j)] if j < 4 else
-                    ["rand", nrand // 16, core.seed() * 1000 + j, 65536])
+        jobs.append(["rand", nrand // 16, core.seed() * 1000 + j, 65536])
+    # payloads kept for the cross-check are bounded (about 16 KB each): a thorough run must not fill the disk
+    nemit = min(nrand // 16, 4000)
+    for j in range(4):
+        jobs.append(["rand", nemit, core.seed() * 1000 + 500 + j, 65536, os.path.join(emitdir, "r%d.bin" % j)])
     res = hrun.run_many(hb, jobs, env, timeout=1800 if tier == "thorough" else 600)
     # (b) cross-check through the package's own server decoder
     xjobs = [["xcheck", os.path.join(emitdir, f)] for f in sorted(os.listdir(emitdir))]
